@@ -57,7 +57,7 @@ SankeyConfigs ==
 LineDims == OrderedSubsets({"t", "r", "e"}) \ {<<>>}
 LineConfigs ==
     UNION {{[op |-> "lines", ds |-> ds, intra |-> i, subplot |-> s, linecolor |-> c, byname |-> bn, xarr |-> xa, chart |-> ch] :
-               i \in Range(ds), s \in {""} \cup Range(ds), c \in {""} \cup Range(ds), bn \in BOOLEAN, xa \in {"none", "same", "intra_only"},
+               i \in Range(ds), s \in {""} \cup Range(ds), c \in {""} \cup Range(ds), bn \in BOOLEAN, xa \in {"none", "same", "intra_only", "reversed"},
                ch \in {"line", "scatter", "area"}}
            : ds \in LineDims}
 RolesOK(c) == /\ c.subplot # c.intra /\ c.linecolor # c.intra /\ (c.subplot = "" \/ c.subplot # c.linecolor)
